@@ -1,5 +1,6 @@
 import ColaVerif.Lemmas.DecompTotal
 import ColaVerif.Lemmas.DecompExecSound
+import ColaVerif.Lemmas.ExactFactorInstances
 import Mathlib.Data.Real.Star
 
 /-!
@@ -14,7 +15,10 @@ The numerical primitives are parameters `P` with contracts `Op.Contracts P pos`
 (`x ** 0.5` squares back to `x` and is real on positive reals; LAPACK `potrf` returns a lower
 triangular `L` with `L Lᴴ` = the Hermitian matrix given by the lower triangle; `scipy.linalg.lu`
 returns a permutation, a lower and an upper triangular factor with `A = L[p,:] U`).
-`C11_contracts_instance`: the exact instance the driver runs satisfies them.
+`C11_contracts_instance`: the exact instance the driver runs satisfies them;
+`C11_chol_dense_witness`, `C11_chol_kron_witness`, `C11_plu_dense_witness` evaluate that instance at
+dense fallback nodes of concrete non-diagonal inputs (`Lemmas/ExactFactorInstances.lean`, shared
+with C06) and apply the theorems through it.
 
 Hypotheses on the input (all named):
 * `Op.CholPre pos A` — Diagonal / ScalarMul entries reached by the structural rules are positive
@@ -213,6 +217,111 @@ example : Op.CholPre GDecomp.gpos
     by_cases h : i = 0 <;> simp [h, GDecomp.gpos] <;> decide
   · simp only [GDecomp.gpos]; decide
 
+/-! ## the dense fallback on concrete non-diagonal inputs (round 3)
+
+The contracts `Op.Contracts.chol` / `.lu` are used at the nodes that fall to the dense rule.  The
+witnesses below RUN the exact primitives (`Lemmas/ExactFactorInstances.lean`: kernel evaluation of
+`GDecomp.gcholDense` / `gluDense`) at such nodes and apply `C11_chol` / `C11_plu` through the
+instance `C11_contracts_instance`: the hypothesis bundles `hP`, `CholPre`, `PluPre`, `CholReturns`,
+`LuReturns` and `… = .ok _` are jointly satisfiable on trees with a dense node. -/
+
+open ExactFactor in
+/-- `PSD(Dense([[4, 2i], [-2i, 5]]))`, complex128: Hermitian positive definite, non-real
+off-diagonal entries -/
+def hpdDense : Op GRat := .annot .psd (.dense .c128 2 2 cholA2c)
+
+open ExactFactor in
+/-- `Dense([[0,1,1],[2,1,0],[2,2,3]])`, float64: the first pivot is 0, partial pivoting swaps -/
+def swapDense : Op GRat := .dense .f64 3 3 luA3
+
+/-- `Kronecker(PSD(Dense([[4, 2i], [-2i, 5]])), Diagonal([4, 9]))`, 4 × 4 -/
+def hpdKron : Op GRat := .kron [hpdDense, .diag .f64 2 (fun i => if i = 0 then 4 else 9)]
+
+private theorem good_dense (dt : DType) (n : Nat) (a : MatF GRat) (h : Op.HermOn n a) :
+    Op.Good (.dense dt n n a : Op GRat) := by
+  refine ⟨by simp [Op.wf], by simp [Op.dupSlice], ?_⟩
+  simp only [Op.HermOK, Op.HermNode, Op.rows, Op.cols, Op.den, MatV.of_f]
+  intro _
+  exact ⟨trivial, h⟩
+
+private theorem hermOn_cholA2c : Op.HermOn 2 ExactFactor.cholA2c := by
+  intro i j hi hj
+  interval_cases i <;> interval_cases j <;> decide +kernel
+
+private theorem cholPre_hpdDense : Op.CholPre GDecomp.gpos hpdDense := by
+  simp only [hpdDense, Op.CholPre, Op.rows, Op.den, MatV.of_f]
+  exact ⟨good_dense _ _ _ hermOn_cholA2c, hermOn_cholA2c⟩
+
+open ExactFactor in
+/-- **`cholesky` at a dense fallback node, evaluated**: for `A = PSD(Dense([[4, 2i], [-2i, 5]]))`
+the hypotheses `CholPre`, `CholReturns` hold, the rule returns the lower `Triangular`
+`[[2, 0], [-i, 2]]` (the exact `potrf` instance, evaluated), and `C11_chol_driver` applied to this
+run gives `L Lᴴ = A`. -/
+theorem C11_chol_dense_witness :
+    Op.CholPre GDecomp.gpos hpdDense ∧ Op.CholReturns GDecomp.params hpdDense ∧
+    Op.cholRule GDecomp.params hpdDense = .ok (.tri .c128 2 2 true cholL2c) ∧
+    LowerTri 2 cholL2c ∧ EqOn 2 2 (mmul 2 cholL2c (conjM (transposeM cholL2c))) cholA2c := by
+  have hrule : Op.cholRule GDecomp.params hpdDense = .ok (.tri .c128 2 2 true cholL2c) := by
+    simp [hpdDense, Op.cholRule, Op.core, Op.cholFallback, Op.rows, Op.cols, Op.td, Op.dtype,
+      GDecomp.params, gchol_cholA2c]
+  refine ⟨cholPre_hpdDense, ?_, hrule, ?_⟩
+  · simp only [hpdDense, Op.CholReturns, Op.rows, Op.cols, Op.td, MatV.of_f, GDecomp.params]
+    exact ⟨trivial, _, gchol_cholA2c⟩
+  · have h := C11_chol_driver hpdDense _ cholPre_hpdDense hrule
+    simpa [hpdDense, Op.rows, Op.den] using h
+
+open ExactFactor in
+/-- **`cholesky` of a nested tree with a dense node, evaluated**: the Kronecker rule calls the
+dense rule on the first factor and the Diagonal rule on the second; `C11_chol` (Mathlib form)
+applies to the run. -/
+theorem C11_chol_kron_witness :
+    Op.CholPre GDecomp.gpos hpdKron ∧ hpdKron.rows = 4 ∧
+    ∃ L, Op.cholRule GDecomp.params hpdKron = .ok L ∧
+      L = .kron [.tri .c128 2 2 true cholL2c, .diag .f64 2 (fun i => ([2, 3] : List GRat).getD i 0)] ∧
+      MatF.toMatrix hpdKron.rows hpdKron.rows L.den.f * (MatF.toMatrix hpdKron.rows hpdKron.rows L.den.f)ᴴ
+        = MatF.toMatrix hpdKron.rows hpdKron.rows hpdKron.den.f := by
+  have hpre : Op.CholPre GDecomp.gpos hpdKron := by
+    simp only [hpdKron, Op.CholPre, List.mem_cons, List.mem_nil_iff, or_false, forall_eq_or_imp,
+      forall_eq]
+    refine ⟨cholPre_hpdDense, ?_⟩
+    intro i _
+    by_cases h : i = 0 <;> simp [h, GDecomp.gpos] <;> decide
+  have h4 : GDecomp.gsqrt .f64 (4 : GRat) = .ok 2 := by decide +kernel
+  have h9 : GDecomp.gsqrt .f64 (9 : GRat) = .ok 3 := by decide +kernel
+  have hrule : Op.cholRule GDecomp.params hpdKron
+      = .ok (.kron [.tri .c128 2 2 true cholL2c, .diag .f64 2 (fun i => ([2, 3] : List GRat).getD i 0)]) := by
+    simp [hpdKron, hpdDense, Op.cholRule, Op.core, Op.cholFallback, Op.rows, Op.cols, Op.td, Op.dtype,
+      GDecomp.params, gchol_cholA2c, Op.seqE, Op.collectOk, Op.sqrtVec, List.range_succ, h4, h9]
+  refine ⟨hpre, by simp [hpdKron, hpdDense, Op.rows], _, hrule, rfl, ?_⟩
+  exact (C11_chol C11_contracts_instance hpdKron _ hpre hrule).2.2.2.2
+
+open ExactFactor in
+/-- **`plu` at a dense fallback node, evaluated**: for `A = Dense([[0,1,1],[2,1,0],[2,2,3]])`
+`PluPre`, `LuReturns` hold, the rule returns `Permutation([1,0,2])` (a genuine row swap),
+`L = [[1,0,0],[0,1,0],[1,1,1]]`, `U = [[2,1,0],[0,1,1],[0,0,2]]` (the exact
+`scipy.linalg.lu` instance, evaluated), and `C11_plu_driver` applied to this run gives
+`P L U = A`. -/
+theorem C11_plu_dense_witness :
+    Op.PluPre swapDense ∧ Op.LuReturns GDecomp.params swapDense ∧
+    Op.pluRule GDecomp.params swapDense
+      = .ok (.perm .f32 luP3, .tri .f64 3 3 true luL3, .tri .f64 3 3 false luU3) ∧
+    luP3 ≠ List.range 3 ∧
+    IsPermMat 3 (permDen luP3 : MatF GRat) ∧ LowerTri 3 luL3 ∧ UpperTri 3 luU3 ∧
+      EqOn 3 3 (mmul 3 (permDen luP3) (mmul 3 luL3 luU3)) luA3 := by
+  have hpre : Op.PluPre swapDense := by
+    simp only [swapDense, Op.PluPre]
+    refine ⟨by simp [Op.wf], by simp [Op.dupSlice], ?_⟩
+    simp [Op.HermOK, Op.HermNode, Op.isa, Op.anns, AnnSet.isa]
+  have hrule : Op.pluRule GDecomp.params swapDense
+      = .ok (.perm .f32 luP3, .tri .f64 3 3 true luL3, .tri .f64 3 3 false luU3) := by
+    simp [swapDense, Op.pluRule, Op.pluFallback, Op.rows, Op.cols, Op.td, Op.dtype,
+      GDecomp.params, glu_luA3]
+  refine ⟨hpre, ?_, hrule, nontrivial.2.2.2, ?_⟩
+  · simp only [swapDense, Op.LuReturns, Op.rows, Op.cols, Op.td, MatV.of_f, GDecomp.params]
+    exact ⟨trivial, _, glu_luA3⟩
+  · have h := C11_plu_driver swapDense _ _ _ hpre hrule
+    simpa [swapDense, Op.rows, Op.den] using h
+
 end C11
 
 #print axioms C11.C11_chol
@@ -230,3 +339,6 @@ end C11
 #print axioms C11.C11_contracts_instance
 #print axioms C11.C11_chol_driver
 #print axioms C11.C11_plu_driver
+#print axioms C11.C11_chol_dense_witness
+#print axioms C11.C11_chol_kron_witness
+#print axioms C11.C11_plu_dense_witness
